@@ -152,6 +152,15 @@ CLAIMED = {
                      "the writer's case labels. Read-back of each recommended form is not decided.",
                 note=TB,
                 tech="constant/operand extraction from ASTs + table agreement"),
+    "C19": dict(level="other", ref="5 C19",
+                text="Structural contracts of value objects: escape analysis with call-graph summaries shows that no storing entry point "
+                     "lets a source argument (or a pointer read out of it) be stored into the heap - stored copies share no storage "
+                     "with the caller's objects; every (re)initialiser cleans its target before storing into it and cif_value_clean "
+                     "always ends in kind = CIF_UNK_KIND; list/table accessors test kind and index (with the right comparison) "
+                     "before touching members and return the documented codes; the list grows before a slot beyond its capacity is "
+                     "written. Structural equality of clones and map semantics under key variants are not decided.",
+                note=TB + "; 3 documented ownership-transfer exemptions (init_char text, parse_numb text, create_norm names)",
+                tech="escape (no-alias) analysis with interprocedural summaries + must-call-before / guard dominance on CFGs"),
     "C20": dict(level="proof", ref="5 C20",
                 text="Exhaustive comparison of the finite set of result-code macros of cif.h with the positional cif_errlist "
                      "initialiser and cif_nerr, read from the AST; complete for this property.",
